@@ -1,0 +1,57 @@
+// Copyright 2023-2026 Buf Technologies, Inc.
+//
+// Licensed under the Apache License, Version 2.0 (the "License");
+// you may not use this file except in compliance with the License.
+// You may obtain a copy of the License at
+//
+//      http://www.apache.org/licenses/LICENSE-2.0
+//
+// Unless required by applicable law or agreed to in writing, software
+// distributed under the License is distributed on an "AS IS" BASIS,
+// WITHOUT WARRANTIES OR CONDITIONS OF ANY KIND, either express or implied.
+// See the License for the specific language governing permissions and
+// limitations under the License.
+
+//go:build verif
+
+package vanguard
+
+import (
+	"bytes"
+	"sync/atomic"
+)
+
+// VerifPoolObserver, when set, is told about every bufferPool Get ('G') and
+// Put ('P'). Only compiled with the "verif" build tag.
+var VerifPoolObserver atomic.Pointer[func(op byte, buf *bytes.Buffer)]
+
+// VerifPoolPoison, when true, overwrites the full capacity of every buffer
+// handed back to the pool, so that any later use of stale contents is
+// deterministic rather than timing dependent.
+var VerifPoolPoison atomic.Bool
+
+const verifPoolHooked = true
+
+func verifOnPoolGet(buf *bytes.Buffer) {
+	if f := VerifPoolObserver.Load(); f != nil {
+		(*f)('G', buf)
+	}
+}
+
+func verifOnPoolPut(buf *bytes.Buffer) {
+	if f := VerifPoolObserver.Load(); f != nil {
+		(*f)('P', buf)
+	}
+	if VerifPoolPoison.Load() {
+		length := buf.Len()
+		buf.Reset()
+		data := buf.Bytes()[:buf.Cap()]
+		for i := range data {
+			data[i] = 0xDD
+		}
+		// keep the length the caller left, now filled with poison
+		if length <= len(data) {
+			buf.Write(data[:length])
+		}
+	}
+}
